@@ -21,4 +21,25 @@ PROPS = {
             "URL/scheme/media-type facts enter the model as data computed by the real crates",
         ],
     },
+    "C02": {
+        "harness": "c02",
+        "props_file": "Props/C02.v",
+        "run_module": "Model.Graph Model.Walk Model.RunC15 Model.RunC02",
+        "run_fn": "run_c02",
+        "pinned_theorems": ["C02_validate_iff", "C02_valid_iff", "C02_valid_edges",
+                            "C02_reachable_failure_not_skipped_outside_known_class", "C02_error_names",
+                            "C02_failsb_correct", "C02_follow_dynamic_missing_root_refuted"],
+        "rule": ("same real graphs as C15 (faults: missing, load error, parse error, unsupported media, bad "
+                 "resolution, https->http, literal file:// from remote, behind static/dynamic/code/type edges "
+                 "and redirect chains); 8 validations per graph (the first is ModuleGraph::valid() itself, the "
+                 "others random kind x follow_dynamic x check_js x prefer_fast_check x root subsets). The real "
+                 "verdict is judged by the extracted, proved-correct decision procedure (failsb) and compared "
+                 "with the model's verdict. non-trivial = graph with >= 2 modules where some but not all "
+                 "validations fail"),
+        "assumptions": [
+            "roots are given as a set",
+            "known finding F-C02a (follow_dynamic drops Missing slot errors that no dependency reports) is reported as KNOWN-FINDING",
+        ],
+        "partial": ["for follow_dynamic = true only C02_reachable_failure_not_skipped_outside_known_class is proved; the iff is refuted (F-C02a)"],
+    },
 }
